@@ -186,10 +186,17 @@ class World:
             h.update(repr(rec).encode())
         h.update(repr(self.loop.steps).encode())
         h.update(repr(round(self.loop.time(), 9)).encode())
+        masks = [x for m in getattr(self, "digest_masks", ()) for x in (m, os.path.basename(m))]
         for c in self.fsctl.calls:
-            h.update(repr(tuple(c)).encode())
+            t = repr(tuple(c))
+            for m in masks:  # e.g. the randomly named scratch directory of a filesystem backend
+                t = t.replace(m, "<scratch>")
+            h.update(t.encode())
         if extra is not None:
-            h.update(repr(extra).encode())
+            t = repr(extra)
+            for m in masks:
+                t = t.replace(m, "<scratch>")
+            h.update(t.encode())
         return h.hexdigest()[:16]
 
     def log_records(self):
